@@ -24,6 +24,7 @@ import (
 var c19mAlphabet = []string{
 	"am0: create small silence", "am1: create oversized silence (1600B comment, larger than a gossip packet)", "am2: create silence just over the gossip threshold",
 	"am0: expire its first silence", "isolate am2", "heal all links", "late joiner am3 starts", "advance 3s", "advance 65s (push/pull interval)",
+	"am2 is killed (no leave) and restarted at once on the same address under a new name; 20s pass",
 }
 
 func meshSilenceIDs(in *meshInst) map[string]string {
@@ -66,6 +67,8 @@ func c19mRun(t *testing.T, h []int) (res seqx.Result) {
 		var first string
 		isolated := false
 		everFaulty := false
+		replaced := false
+		meshNameOverride = map[int]string{}
 		create := func(i, pad int) {
 			now := time.Now()
 			c, id := m.inst[i].f.postSilence(fPostSilence{Matchers: []fMatcher{{Name: "x", Value: fmt.Sprint(len(made)), IsEqual: true}}, StartsAt: rfc(now), EndsAt: rfc(now.Add(time.Hour)), CreatedBy: "v", Comment: strings.Repeat("c", pad)})
@@ -137,6 +140,18 @@ func c19mRun(t *testing.T, h []int) (res seqx.Result) {
 					break
 				}
 				m.start(3, filepath.Join(root, "am3"))
+			case 9:
+				// what a crash-restart does with the default random peer names: same address, new name, and the old
+				// name is declared dead a few seconds after the new one has joined
+				if isolated || replaced || m.inst[2] == nil {
+					res.Skip = true
+					break
+				}
+				old := m.kill(2)
+				meshNameOverride[2] = "am2b"
+				m.start(2, old.dir)
+				replaced = true
+				time.Sleep(20 * time.Second)
 			case 7:
 				time.Sleep(3 * time.Second)
 			case 8:
@@ -150,9 +165,15 @@ func c19mRun(t *testing.T, h []int) (res seqx.Result) {
 			synctest.Wait()
 			// with no fault so far, every update is everywhere within 5s by gossip / reliable send alone (joiner excluded: it syncs by push/pull)
 			if !everFaulty && (e <= 3) {
-				time.Sleep(5 * time.Second)
+				// after a crash-restart the bound is 2s: the reconnect task (every 10s) re-joins addresses it believes
+				// failed, and that join carries a full state - a delivery by accident, not by broadcast
+				wait := 5 * time.Second
+				if replaced {
+					wait = 2 * time.Second
+				}
+				time.Sleep(wait)
 				synctest.Wait()
-				check(fmt.Sprintf("5s after step %d (%s), no fault so far", step, c19mAlphabet[e]), m.inst[:3])
+				check(fmt.Sprintf("%v after step %d (%s), no fault so far", wait, step, c19mAlphabet[e]), m.inst[:3])
 			}
 			if res.Viol != "" {
 				m.stopAll()
